@@ -23,9 +23,9 @@ type gen struct {
 	vars    []string
 }
 
-func (g *gen) pick(xs ...string) string { return xs[g.r.Intn(len(xs))] }
+func (g *gen) pick(xs ...string) string            { return xs[g.r.Intn(len(xs))] }
 func (g *gen) pick2(xs ...interface{}) interface{} { return xs[g.r.Intn(len(xs))] }
-func (g *gen) chance(p float64) bool    { return g.r.Float64() < p }
+func (g *gen) chance(p float64) bool               { return g.r.Float64() < p }
 
 // ---- documents -------------------------------------------------------------
 
@@ -379,7 +379,9 @@ func (g *gen) block(d int) string {
 	case 5:
 		return "(" + g.operand(d) + " ~> " + g.pick("$string", "$count", "$sum", "function($v){$v}") + ")"
 	case 8:
-		f := func() string { return g.pick("$string", "function($v){$v + 1}", "function($v){$v * 2}", "$count", "function($v){[$v]}") }
+		f := func() string {
+			return g.pick("$string", "function($v){$v + 1}", "function($v){$v * 2}", "$count", "function($v){[$v]}")
+		}
 		return "($c := " + f() + " ~> " + f() + g.pick("", " ~> "+f(), " ~> "+f()+" ~> "+f()) + "; $d := $c ~> " + f() + "; $e := $c ~> " + f() + "; [$d(3), $e(3), $c(3)])"
 	case 6:
 		return "($f := function($x)<" + g.pick("n", "s", "n?", "a", "a<n>", "(ns)", "x", "n+", "j", "f", "o", "b") + ":n>{$x}; $f(" + g.operand(d) + "))"
@@ -547,7 +549,9 @@ func (g *gen) program() string {
 			return string(out)
 		}
 		q := func(s string) string { b, _ := json.Marshal(s); return string(b) }
-		num := func() string { return g.pick("0", "1", "2", "3", "5", "8", "-1", "-2", "-3", "-8", "1.5", "-2.5", "40") }
+		num := func() string {
+			return g.pick("0", "1", "2", "3", "5", "8", "-1", "-2", "-3", "-8", "1.5", "-2.5", "40")
+		}
 		s := q(rs(g.pick2(6, 12, 40).(int)))
 		c := q(rs(2))
 		switch g.r.Intn(16) {
@@ -793,6 +797,12 @@ func genMain(args []string) {
 		g.vars = []string{"v", "w"}
 	}
 	for i := 0; i < *n; i++ {
+		if *prof == "numfmt" {
+			b, _ := json.Marshal(M{"id": *start + i, "fam": *fam, "mode": "num", "flags": M{"calls": g.numCalls()}})
+			w.Write(b)
+			w.WriteByte('\n')
+			continue
+		}
 		if *prof == "clock" {
 			b, _ := json.Marshal(M{"id": *start + i, "fam": *fam, "mode": "date", "flags": M{"fn": "clock", "variant": i % 4}})
 			w.Write(b)
@@ -925,3 +935,171 @@ func genMain(args []string) {
 }
 
 func selftestMain() {}
+
+// ---- C18: random doubles, pictures from the decimal-format grammar, mutations, custom formats ----
+
+func (g *gen) numX() M {
+	r := g.r
+	n := 1 + r.Intn(7)
+	switch r.Intn(6) {
+	case 0:
+		n = 15 + r.Intn(3)
+	case 1:
+		n = 1
+	}
+	ds := make([]interface{}, n)
+	for i := range ds {
+		ds[i] = r.Intn(10)
+	}
+	if ds[0].(int) == 0 {
+		ds[0] = 1 + r.Intn(9)
+	}
+	if r.Intn(3) == 0 {
+		ds[n-1] = 5 // a tie at some precision
+	}
+	e := -n + r.Intn(8) - 2
+	switch r.Intn(8) {
+	case 0:
+		e = r.Intn(34) - 12 - n
+	case 1:
+		e = -r.Intn(7)
+	}
+	sg := 1
+	if r.Intn(3) == 0 {
+		sg = -1
+	}
+	if r.Intn(25) == 0 {
+		ds = []interface{}{0}
+		e = 0
+	}
+	return M{"sg": sg, "ds": ds, "e": e}
+}
+
+func (g *gen) numPicture() string {
+	r := g.r
+	pick := func(a ...string) string { return a[r.Intn(len(a))] }
+	sub := func() string {
+		ip := pick("0", "#", "00", "#0", "##0", "#,##0", "#,###", "0,000", "00,00", "#,##,##0", "#,###,#0", "#,#,##0", "#,##0,0", "0000,000", "", "#,##0", "###,###,##0", "0,0,0", "#,#00,00")
+		fp := pick("", ".0", ".00", ".#", ".0#", ".##", ".000", ".0,0", ".0,00,0", ".00,0#", ".######", ".", ".0##,###", ".00")
+		ex := ""
+		if r.Intn(5) == 0 {
+			ex = pick("e0", "e00", "e000")
+		}
+		pre := pick("", "", "$", "a ", "(", "EUR ")
+		suf := pick("", "", "%", "\u2030", " u", ")", "% of", " CR")
+		return pre + ip + fp + ex + suf
+	}
+	p := sub()
+	if r.Intn(4) == 0 {
+		p += ";" + sub()
+	}
+	if r.Intn(4) == 0 {
+		// one mutation: insert, delete or replace a character
+		rs := []rune(p)
+		alphabet := []rune(".,x#0;%e1 -")
+		k := r.Intn(len(rs) + 1)
+		switch r.Intn(3) {
+		case 0:
+			rs = append(rs[:k], append([]rune{alphabet[r.Intn(len(alphabet))]}, rs[k:]...)...)
+		case 1:
+			if k < len(rs) {
+				rs = append(rs[:k], rs[k+1:]...)
+			}
+		case 2:
+			if k < len(rs) {
+				rs[k] = alphabet[r.Intn(len(alphabet))]
+			}
+		}
+		p = string(rs)
+	}
+	return p
+}
+
+func (g *gen) numOpts() (M, func(string) string) {
+	r := g.r
+	id := func(s string) string { return s }
+	switch r.Intn(8) {
+	case 0:
+		return M{"dec": int(','), "grp": int('.')}, func(s string) string {
+			return strings.Map(func(c rune) rune {
+				switch c {
+				case '.':
+					return ','
+				case ',':
+					return '.'
+				}
+				return c
+			}, s)
+		}
+	case 1:
+		return M{"zero": 0x660}, func(s string) string {
+			return strings.Map(func(c rune) rune {
+				if c >= '0' && c <= '9' {
+					return 0x660 + c - '0'
+				}
+				return c
+			}, s)
+		}
+	case 2:
+		return M{"digit": int('@'), "psep": int('|'), "minus": int('~'), "exp": int('E')}, func(s string) string {
+			return strings.NewReplacer("#", "@", ";", "|", "e", "E").Replace(s)
+		}
+	case 3:
+		return M{"pct": cps("pc"), "pml": cps("pm")}, func(s string) string {
+			return strings.NewReplacer("%", "pc", "\u2030", "pm").Replace(s)
+		}
+	}
+	return nil, id
+}
+
+func (g *gen) numCalls() []interface{} {
+	r := g.r
+	one := func() M {
+		switch r.Intn(10) {
+		case 0, 1:
+			c := M{"fn": "round", "xd": g.numX()}
+			if r.Intn(5) > 0 {
+				c["p"] = r.Intn(19) - 6
+			}
+			if r.Intn(4) == 0 {
+				c["nudge"] = 1 - 2*r.Intn(2)
+			}
+			return c
+		case 2:
+			c := M{"fn": []string{"string", "numrt"}[r.Intn(2)], "xd": g.numX()}
+			if r.Intn(3) == 0 {
+				c["nudge"] = 1 - 2*r.Intn(2)
+			}
+			return c
+		}
+		o, tr := g.numOpts()
+		p := g.numPicture()
+		if r.Intn(6) > 0 {
+			p = tr(p)
+		}
+		c := M{"fn": "fmt", "xd": g.numX(), "pic": cps(p)}
+		if o != nil {
+			c["opts"] = o
+		}
+		return c
+	}
+	n := 1
+	if r.Intn(4) == 0 {
+		n = 2 + r.Intn(3)
+	}
+	calls := []interface{}{}
+	for i := 0; i < n; i++ {
+		c := one()
+		if i > 0 && c["fn"] == "fmt" && r.Intn(2) == 0 {
+			// the same picture text again, under another format
+			for j := i - 1; j >= 0; j-- {
+				if pc := calls[j].(M); pc["fn"] == "fmt" {
+					c["pic"] = pc["pic"]
+					break
+				}
+			}
+		}
+		calls = append(calls, c)
+	}
+	return calls
+}
